@@ -4,7 +4,10 @@ EXTENDS Machine
 CONSTANT Depth
 AllVals == {ValOf(T, FromInt(n)) : n \in 0..(PowInt(2, MW) - 1)}
 MCPool == [vals |-> AllVals, amounts |-> 0..(2 * MW + 1)]
-Bounded == steps < Depth
+\* programs of at most Depth steps.  The bound is a guard of the next-state relation, not a CONSTRAINT: TLC discards a
+\* state that violates a constraint before it evaluates the invariants on it, which would leave the last step unchecked.
+MCNext == steps < Depth /\ MNext
+MCSpec == MInit /\ [][MCNext]_mvars
 \* the observation and the step counter do not influence behaviour
 View == <<reg, exact, ringok>>
 ==============================================================================
